@@ -239,8 +239,7 @@ impl<R: RefCounter, PR: PathRefCounter, H: Header> Memory<R, PR, H> {
 
   pub(crate) unsafe fn clear(&mut self) {
     unsafe {
-      let header_ptr_offset =
-        align_offset::<H>(self.reserved as u32) as usize + mem::align_of::<H>();
+      let header_ptr_offset = crate::align_prefix::<H>(self.reserved) + mem::align_of::<H>();
       let data_offset = header_ptr_offset + mem::size_of::<H>();
 
       let min_segment_size = self.header().load_min_segment_size();
@@ -1106,8 +1105,8 @@ impl<R: RefCounter, PR: PathRefCounter, H: Header> Memory<R, PR, H> {
 #[inline]
 fn header_meta<H>(reserved: usize, unify: bool) -> (usize, usize) {
   if unify {
-    let offset = align_offset::<H>(reserved as u32) as usize + mem::align_of::<H>();
-    (offset, offset + mem::size_of::<H>())
+    let offset = crate::align_prefix::<H>(reserved).saturating_add(mem::align_of::<H>());
+    (offset, offset.saturating_add(mem::size_of::<H>()))
   } else {
     (reserved + 1, reserved + 1)
   }
